@@ -80,9 +80,25 @@ struct GuardedBuffer {
 };
 static inline void saveLoad(Driver& d, Inst& from, Inst& to, long step) {
 	GuardedBuffer g1, g2;
-	from.probe.step = (uint64_t)step;
-	d.opBegin(from, OP_SAVE, to.idx);
-	from.m->save(*g1.b);
+	// callers reuse buffers: what a buffer held before save() must not matter (same leftovers in both, so a save that
+	// only defines its own SERIAL_BITS still re-saves identically)
+	{
+		typedef typename Instance::SerialBuffer SB;
+		static thread_local unsigned char lastSnap[sizeof(SB)]; static thread_local bool haveSnap = false;
+		unsigned char* p1 = (unsigned char*)g1.b->data(); unsigned char* p2 = (unsigned char*)g2.b->data();
+		const unsigned n = (unsigned)sizeof(g1.b->data());
+		uint64_t z = vh::mix((uint64_t)step * 0x9e3779b97f4a7c15ull + (uint64_t)from.idx * 31 + (uint64_t)to.idx);
+		switch (z & 3) {
+		case 0: break;
+		case 1: memset(p1, 0xFF, n); memset(p2, 0xFF, n); break;
+		case 2: for (unsigned i = 0; i < n; ++i) { z = vh::mix(z + i); p1[i] = p2[i] = (unsigned char)z; } break;
+		default: if (haveSnap) { memcpy(p1, lastSnap, n); memcpy(p2, lastSnap, n); } else { memset(p1, 0xFF, n); memset(p2, 0xFF, n); } break;
+		}
+		from.probe.step = (uint64_t)step;
+		d.opBegin(from, OP_SAVE, to.idx);
+		from.m->save(*g1.b);
+		memcpy(lastSnap, p1, n); haveSnap = true;
+	}
 	d.log.tag('b'); for (unsigned i = 0; i < sizeof(g1.b->data()); ++i) d.log.i(g1.b->data()[i]); d.log.nl();
 	d.opEnd(from);
 	if (!g1.intact()) { d.log.tag('V'); d.log.s("C08.save-wrote-outside-the-buffer"); d.log.nl(); }
